@@ -6,7 +6,7 @@
 From Coq Require Import List Arith NArith Permutation.
 From Falco Require Import Base.Res Gen.InferScopes Model.Include Model.ScopeInfer
   Proofs.IncludeTotal Proofs.ScopeInferLfp Proofs.ScopeInferTerm Proofs.DetectOrder Proofs.InferMain
-  Proofs.DeclPerm Proofs.DetectSpec.
+  Proofs.DeclPerm Proofs.DetectSpec Gen.MapRanges Model.LintMapRanges Proofs.MapPasses Proofs.ScopeRules.
 Import ListNotations.
 
 (* Include expansion terminates within (number of module files + 1) nested calls on EVERY module
@@ -39,6 +39,9 @@ Theorem C11_scope_constants :
   Forall (fun kv => In (snd kv) scope_consts) fastly_scopes /\
   NoDup (map fst fastly_scopes) /\ length fastly_scopes = 10.
 Proof. exact scope_constants. Qed.
+
+Theorem C11_scope_rule_tables : scope_rule_tables_statement.
+Proof. exact scope_rule_tables. Qed.
 
 (* Scope propagation stops after at most 10 * |subroutines| changing rounds, for every key order
    the runtime may pick in every round (orders), every call graph, every initial scopes within
@@ -95,6 +98,21 @@ Theorem C11_detect_on_cycle_refuted :
   exists callees order w f, detect callees 3 order = OK w /\ In f w /\ ~ on_cycle callees f.
 Proof. exact detect_on_cycle_refuted. Qed.
 
+(* T tie: the `for ... range <map>` loops of linter/ (go/types), regenerated on every run, are exactly the
+   audited ones; each has one of the four shapes of Model/ScopeInfer.v, and each shape is proved order free:
+   Report (C11_unused_multiset_order_free), Pointwise (C11_pointwise_order_free), DfsStarts
+   (C11_cycle_set_order_free / C11_detect_spec), FixpointRound (C11_infer_lfp_order_free).  A new map-ordered
+   loop breaks this by name. *)
+Theorem C11_map_ranges_audited : map_ranges = map fst audited_ranges.
+Proof. reflexivity. Qed.
+
+(* the initialisation loops of inferSubroutineScopes: every iteration rewrites only its own entry *)
+Theorem C11_pointwise_order_free :
+  forall (g : name -> N -> N) order order' (s : state),
+    NoDup order -> Permutation order order' ->
+    forall n, pointwise_pass g order s n = pointwise_pass g order' s n.
+Proof. exact pointwise_order_free. Qed.
+
 (* the map-ordered report passes (lintUnused*, the report loop of detectRecursion) yield the same
    multiset of diagnostics for every key order *)
 Theorem C11_unused_multiset_order_free :
@@ -127,6 +145,9 @@ Proof. exact decl_permutation_refuted. Qed.
 
 Print Assumptions C11_infer_decl_permutation.
 Print Assumptions C11_decl_permutation_refuted.
+Print Assumptions C11_scope_rule_tables.
+Print Assumptions C11_map_ranges_audited.
+Print Assumptions C11_pointwise_order_free.
 Print Assumptions C11_detect_spec.
 Print Assumptions C11_detect_on_cycle_refuted.
 Print Assumptions C11_include_total.
